@@ -251,6 +251,24 @@ fn eval_case(prop: &str, case_id: &str, h: &History, rep: &mut Report, args: &Ar
                 }
                 "C02" => {
                     fails.extend(check_structure(h, out, 0));
+                    // "the output" is what the muxer writes, whatever the sink held before: one
+                    // history in sixteen is muxed once more into a sink that already holds
+                    // longer content (a file overwritten in place, a reused buffer); the byte
+                    // range written must be exactly the output above - no gap, no shift
+                    if hash_str(&sh) % 16 == 3 {
+                        let extra = 1 + (hash_str(&sh) >> 8) as usize % 5000;
+                        let old: Vec<u8> = (0..out.len() + extra).map(|i| 0xA0 ^ (i as u8).wrapping_mul(31)).collect();
+                        let run2 = run_history(h, MonWriter::prefilled(old), |_, _, _, _| {});
+                        match run2.writer {
+                            Some(w) => {
+                                if w.high != out.len() as u64 || w.buf[..(w.high as usize).min(w.buf.len())] != out[..] {
+                                    fails.push(("output_depends_on_old_content_of_the_sink".into(), json!({"fresh_sink_len": out.len(), "highest_offset_written": w.high, "old_content_len": out.len() + extra})));
+                                }
+                            }
+                            None => fails.push(("output_depends_on_old_content_of_the_sink".into(), json!({"why": "no output"}))),
+                        }
+                        rep.add("histories_muxed_into_a_prefilled_sink", 1);
+                    }
                 }
                 "C14" => {
                     let data = Rc::new(out.clone());
